@@ -102,6 +102,8 @@ pub struct World<'a> {
     pub shared_rng_mode: bool,
     /// every call is given a generator that starts at the SAME position of the SAME tape
     pub same_tapes: bool,
+    /// C17: structured tapes (bits forced on a prefix)
+    pub tape_force: Option<(usize, u8)>,
     /// messages travel through serde (decode native -> serde encode -> serde decode -> native)
     pub msg_codec: Option<Codec>,
     pub transport_problems: Vec<String>,
@@ -162,6 +164,7 @@ impl<'a> World<'a> {
             shared_rng: None,
             shared_rng_mode: false,
             same_tapes: false,
+            tape_force: None,
             msg_codec: None,
             transport_problems: Vec::new(),
         }
@@ -210,6 +213,11 @@ impl<'a> World<'a> {
     }
 
     fn rng(&mut self, tape: i64) -> TapeRng {
+        if let Some(f) = self.tape_force {
+            let mut t = TapeRng::new(self.run_seed, tape);
+            t.force = Some(f);
+            return t;
+        }
         if self.same_tapes {
             return TapeRng::new(self.run_seed, 424_242);
         }
